@@ -9,10 +9,26 @@
                         | Expand (the function has its own row in the table)
      Risk kind text   a construct outside every wrap that can panic by itself
                       (kind = slice | index | div | panic)
-     Unrecognised w   a shape the translator does not understand (fails every table theorem) *)
+     OnErr r c        (inside an ApplyFuncIfNoError closure only) the call c yields an error and the
+                      closure treats it as r: ReturnsCallErr = the closure returns a non-nil error
+                      whenever c did; SwallowsErr = the error is dropped (assigned to _, only logged,
+                      `return nil`, `continue`) and the closure goes on; UnrecognisedErr = a shape the
+                      translator does not read (tools/goextract/emit_hooks_errflow.go)
+     Unrecognised w   a shape the translator does not understand (fails every table theorem)
+
+   apply_stmt: the statements of types/utils.go ApplyFuncIfNoError itself, read by the translator:
+     ADeferRecover    defer func() { if r := recover(); r != nil { ... } }()
+     ACacheCtx        cacheCtx, writeCache := ctx.CacheContext()
+     ARunOnCache      err = f(cacheCtx)          ARunOnParent   err = f(ctx)
+     AWrite           writeCache()
+     AIfErrNil y n    if err == nil { y } else { n }
+     ALog             a statement that only logs
+     AReturnErr       return err                 AReturnNil     return nil *)
 From Coq Require Import List String.
 
 Inductive call_kind := Reads | Writes | Expand.
+
+Inductive err_result := ReturnsCallErr | SwallowsErr | UnrecognisedErr (what : string).
 
 Inductive hook :=
 | Seq (l : list hook)
@@ -20,4 +36,11 @@ Inductive hook :=
 | Wrapped (body : hook)
 | Call (name : string) (k : call_kind)
 | Risk (kind text : string)
-| Unrecognised (what : string).
+| Unrecognised (what : string)
+| OnErr (r : err_result) (c : hook).
+
+Inductive apply_stmt :=
+| ADeferRecover | ACacheCtx | ARunOnCache | ARunOnParent | AWrite
+| AIfErrNil (yes no : list apply_stmt)
+| ALog | AReturnErr | AReturnNil
+| AUnrecognised (what : string).
